@@ -34,6 +34,17 @@ for _c in CRASH_CLASSES:
 _LIBRARY_CRASH = []
 
 
+def library_crash_class_2():
+    """Same, deriving from the library's CoercionError (which the executors raise and catch around argument
+    coercion): raised by a resolver it is no argument problem."""
+    if len(_LIBRARY_CRASH) < 2:
+        library_crash_class()
+        from py_gql.exc import CoercionError
+
+        _LIBRARY_CRASH.append(type("CrashCoercionError", (Crash, CoercionError), {}))
+    return _LIBRARY_CRASH[1]
+
+
 def library_crash_class():
     """An application exception that happens to derive from the library's ExecutionError (not from its resolver
     error): still nothing a resolver is supposed to raise, hence unexpected."""
